@@ -15,6 +15,7 @@ import (
 	"os"
 	"os/exec"
 	"path/filepath"
+	"runtime"
 	"runtime/debug"
 	"sort"
 	"strconv"
@@ -63,6 +64,11 @@ func main() {
 	funcs := flag.String("funcs", "", "debug: list function names containing this string")
 	flag.Parse()
 	debug.SetGCPercent(400) // short-lived process: trade memory (< 2 GB) for less GC work
+	if os.Getenv("GOMAXPROCS") == "" {
+		// measured: type-checking + SSA of 59 packages is faster (and far cheaper in
+		// system time) with 6 threads than with 16 in this sandbox.
+		runtime.GOMAXPROCS(6)
+	}
 	if *dump != "" || *funcs != "" {
 		p, err := eng.Load(eng.Config{RepoDir: *repo})
 		if err != nil {
